@@ -121,12 +121,12 @@ static uint32_t name_hash (const char *nm) { return (uint32_t) (text_hash (nm, s
    global of the function that is declared, by number; `!` marks an entry whose number does not lead
    back to the name */
 static void print_regtab (MIR_func_t func) {
-  struct { uint32_t h; long reg; int back; } e[512];
+  static struct { uint32_t h; long reg; int back; } e[16384]; /* (large functions: link-time simplification adds hundreds of temporaries) */
   int n = 0;
   for (int pass = 0; pass < 2; pass++) {
     VARR (MIR_var_t) *vs = pass == 0 ? func->vars : func->global_vars;
     if (vs == NULL) continue;
-    for (size_t i = 0; i < VARR_LENGTH (MIR_var_t, vs) && n < 512; i++) {
+    for (size_t i = 0; i < VARR_LENGTH (MIR_var_t, vs) && n < 16384; i++) {
       const char *nm = VARR_GET (MIR_var_t, vs, i).name;
       volatile long reg = -1;
       volatile int back = 0;
